@@ -138,7 +138,7 @@ def cmp (max : Nat) : Nat → Nat → Val → Val → Out Bool
       | .uns x, .uns y => .ok (x == y)
       | .int x, .int y => .ok (x == y)
       | .rune x, .rune y => .ok (x == y)
-      | .flt x, .flt y => .ok (eqFl x y)
+      | .flt x, .flt y => .ok (rankFl x y == .eq)     -- floats compare equal exactly when they rank equal
       | .cpx x, .cpx y => .ok (eqCx x y)
       | .str x, .str y => .ok (x == y)
       | .arr _ na xs, .arr _ nb ys =>
